@@ -109,20 +109,32 @@ class BuildError(Exception):
     pass
 
 
-def build_wvh():
+def _private_copy(src, dest_dir, name):
+    """A concurrent check's rebuild unlinks the shared binary; each check runs its own copy."""
+    if dest_dir is None:
+        return src
+    dst = os.path.join(dest_dir, name)
+    shutil.copy2(src, dst)
+    return dst
+
+
+def build_wvh(private_dir=None):
+    global WVH
     with Lock("cargo-wvh"):
-        lock_src = os.path.join(REPO, "Cargo.lock")
         rc, out = sh(["cargo", "build", "--offline"], cwd=os.path.join(VERIF, "harness"))
         if rc != 0:
             raise BuildError("cargo build of wvh (harness against /repo working tree) failed:\n" + out[-4000:])
+        WVH = _private_copy(os.path.join(TARGET, "wvh", "debug", "wvh"), private_dir, "wvh")
 
 
-def build_wild():
+def build_wild(private_dir=None):
+    global WILD
     with Lock("cargo-wild"):
         rc, out = sh(["cargo", "build", "--offline", "--manifest-path", os.path.join(REPO, "Cargo.toml"), "-p", "wild-linker",
                       "--features", "verif", "--target-dir", os.path.join(TARGET, "wild")])
         if rc != 0:
             raise BuildError("cargo build of wild (feature verif) failed:\n" + out[-4000:])
+        WILD = _private_copy(os.path.join(TARGET, "wild", "debug", "wild"), private_dir, "wild")
 
 
 def lake_build(targets):
@@ -344,9 +356,11 @@ def _run(mod, ctx):
     pid = ctx.pid
     level = getattr(mod, "LEVEL", "proof")
     # 1. build the implementation side from /repo's working tree (hooks on)
-    build_wvh()
+    bindir = os.path.join(ctx.scratch, "bin")
+    os.makedirs(bindir, exist_ok=True)
+    build_wvh(bindir)
     if getattr(mod, "NEEDS_WILD", False):
-        build_wild()
+        build_wild(bindir)
     # 2. regenerate the Gen/*.lean files the property depends on (T1/T2)
     if hasattr(mod, "regenerate"):
         mod.regenerate(ctx)
@@ -355,21 +369,21 @@ def _run(mod, ctx):
     modules = list(getattr(mod, "LEAN_MODULES", []))
     ctx.obligations = len(theorems)
     rc, out = lake_build(modules + ["wmdriver"])
-    proof_log = ""
+    proofs_ok = rc == 0
     if rc != 0:
-        proof_log = out
         # the driver must exist for the search; build it alone (it does not import Props)
         rc2, out2 = lake_build(["wmdriver"])
         if rc2 != 0:
             raise BuildError("lake build wmdriver failed:\n" + out2[-3000:])
-        # find which modules fail
+        # find which theorem modules fail
+        proofs_ok = True
         for m in modules:
             r, o = lake_build([m])
             if r != 0:
+                proofs_ok = False
                 errs = re.findall(r"error: ([^\n]*)", o)
                 ctx.broken.append(f"lake build {m} failed: " + "; ".join(errs[:3]))
-        ctx.discharged = 0
-    else:
+    if proofs_ok:
         hits = lean_source_audit()
         if hits:
             ctx.broken.append("forbidden construct in Lean sources: " + "; ".join(hits[:5]))
